@@ -304,6 +304,10 @@ def _sorted(ex, st, self_v, args, kwargs, node):
     st.assume(z3.ForAll([i], Implies(And(0 <= i, i < n), And(0 <= sel(perm, i), sel(perm, i) < n, sel(inv, sel(perm, i)) == i,
                                                             *[sel(a2, i) == sel(a1, seq.lo + sel(perm, i)) for a1, a2 in zip(seq.arrays, arrays)]))),
               z3.ForAll([j], Implies(And(0 <= j, j < n), And(0 <= sel(inv, j), sel(inv, j) < n, sel(perm, sel(inv, j)) == j))),
+              # the same permutation seen from the input side (triggered by input cells): every input element is in the output
+              z3.ForAll([j], Implies(And(0 <= j, j < n), And(0 <= sel(inv, j), sel(inv, j) < n,
+                                                            *[sel(a2, sel(inv, j)) == sel(a1, seq.lo + j) for a1, a2 in zip(seq.arrays, arrays)])),
+                        patterns=[sel(seq.arrays[0], seq.lo + j)]),
               z3.ForAll([i, j], Implies(And(0 <= i, i < j, j < n), keyof(out, i) <= keyof(out, j))))
     return R1(ex, st, st.alloc(HList(sym=out)))
 
